@@ -355,6 +355,16 @@ for _p, _w in (("C04", "exactly the selected branch of every Condition"), ("C05"
         "every test; constant guards by position), and the walk consumed exactly the queries asked. On the refinement fragment "
         "the faithful net model's traces satisfy it too (net_C04_fragment / net_C05_fragment). The monitor is applied to "
         "every implementation trace (mon_C04 = mon_C04ctx && mon_C02seq && mon_decide; mon_C05 = mon_C02seq && mon_decide).")
+CLAIMS["C15"]["text"] += (
+    " PARAMETERS, all schedules (MonitorsParams.v, RefParams.v, Properties/C15params.v): every trace of the reference "
+    "semantics satisfies mon_params (C15_params_programs): every task-started / service-started notification at a site carries "
+    "exactly subst_params ie (the site's source parameter list), element by element and in order, where ie binds - innermost "
+    "first - the variable of every counting loop of THIS task instance around the site to its current iteration number and of a "
+    "parallel loop to the instance number (caller's indices are substituted in the call's own parameters, not inside the callee; "
+    "an index outside every binding loop stays as written); the test is made on every delivery, so an earlier mutation of a "
+    "delivered list cannot show up. On the refinement fragment the faithful net model's traces satisfy it too "
+    "(net_C15_fragment). mon_C15 = mon_decide && mon_params is applied to every implementation trace incl. the hostile-engine "
+    "profiles.")
 CLAIMS["C04"]["text"] += (
     " ADDITIONALLY PROVED for ALL schedules and histories (RefC04.v, Properties/C04ctx.v): every variable query names a task "
     "instance that has been announced started and not yet finished at that moment (C04_query_context_ref, monitor "
